@@ -16,13 +16,13 @@ class C06(ModelCheck):
             'pipeline (items, creation event, close event = first item of the next run or the key\'s completion) plus the demux. '
             'non-trivial: >= 3 events reach a split; distinct = distinct (program, schedule)')
     assumptions = []
-    probe_names = ('pred:identity_equal_object', 'pred:nan', 'pred:numpy', 'run_len1', 'single_run', 'empty_key', 'pred:big', 'pred:tuple', 'pred:str', 'under_group_by', 'nested')
+    probe_names = ('pred:impure_counter', 'pred:identity_equal_object', 'pred:nan', 'pred:numpy', 'run_len1', 'single_run', 'empty_key', 'pred:big', 'pred:tuple', 'pred:str', 'under_group_by', 'nested')
     values = ('small', 'inc', 'runs', 'runs', 'dups', 'dups')
 
     def gen_program(self, rng, tier):
         g = Gen(rng, weights={'split': 4, 'roll': 2, 'group_by': 2, 'time_split': 0, 'progress': 0, 'tee_map': 1}, max_nest=2,
                 small=(tier == 'quick'))
-        key = rng.choice(['rv_mod3', 'rv_div2big', 'rv_tup', 'rn_div3', 'rk_big', 'rk_tup', 'rk', 'rv_mixed', 'rv_zero', 'rv_nest', 'rv_np', 'rv_npf', 'rv_nan', 'rv_nan_fresh', 'rv_obj'])
+        key = rng.choice(['rv_mod3', 'rv_div2big', 'rv_tup', 'rn_div3', 'rk_big', 'rk_tup', 'rk', 'rv_mixed', 'rv_zero', 'rv_nest', 'rv_np', 'rv_npf', 'rv_nan', 'rv_nan_fresh', 'rv_obj', 'cnt3'])
         inner = g.pipeline(St('rec'), Flags(deny=('time_split', 'progress')), rng.choice([0, 1, 1]), rng.choice([1, 2, 2, 3]))
         node = {'op': 'split', 'key': key, 'inner': inner}
         shape = rng.random()
@@ -48,6 +48,8 @@ class C06(ModelCheck):
                 p['pred:str'] += 1
             if 'nan' in k:
                 p['pred:nan'] += 1
+            if k == 'cnt3':
+                p['pred:impure_counter'] += 1
             if k == 'rv_obj':
                 p['pred:identity_equal_object'] += 1
             if '_np' in k:
